@@ -63,7 +63,7 @@ struct Model {
       case OP_CALL: return st.obj_alive[op.obj];
       case OP_DESTROY_MOCK: return st.obj_alive[op.obj];
       case OP_MOVE_MOCK: return op.obj >= 2 && op.k1 >= 2 && op.obj != op.k1 && st.obj_alive[op.obj] && !st.obj_alive[op.k1];
-      case OP_ASSIGN_SEQ: if (op.k1 == 1) return op.s1 != op.s2 && st.s[op.s1].alive && st.s[op.s2].alive;  // fall through
+      case OP_ASSIGN_SEQ: if (op.k1 >= 1) return op.s1 != op.s2 && st.s[op.s1].alive && st.s[op.s2].alive;  // fall through
       case OP_DESTROY_SEQ: case OP_MOVE_SEQ: return st.s[op.s1].alive;
       case OP_NEW_WATCHED: return !st.wat_alive[op.obj];
       case OP_DELETE_WATCHED: return st.wat_alive[op.obj];
@@ -247,9 +247,15 @@ struct Model {
       for (int i = 0; i < c.nseq; ++i) seq_erase(c.seqs[i], chosen);
     }
     { std::ostringstream k; k << (int)st.okgen << ':' << chosen; o.oks.push_back(k.str()); }
-    if (st.armed_ok) { st.repgen = st.okgen = (uint8_t)(st.armed_ok - 1); st.armed_ok = 0; }  // set_reporter called from inside the OK callback
     if (top) { o.handler = chosen; }
     int status = 0; std::string result;
+    if (st.armed_ok == 10) {
+      // the OK callback (user code) calls the same mock function again, once: the bookkeeping of the reported call is complete by then;
+      // a fatal report of that inner call leaves the reporter by exception and ends the outer call before its actions
+      st.armed_ok = 0;
+      std::string nres; int ns = do_call(obj, fn, a1, a2, o, false, &nres);
+      if (ns != 0) { status = ns; result = ns == 2 ? "nested-fatal" : nres; }
+    } else if (st.armed_ok) { st.repgen = st.okgen = (uint8_t)(st.armed_ok - 1); st.armed_ok = 0; }  // set_reporter called from inside the OK callback
     uint8_t semode[3], actmode = c.actmode; std::memcpy(semode, c.semode, 3);
     for (int i = 0; i < sh.nse && status == 0; ++i) {
       { std::ostringstream k; k << 'S' << chosen << '.' << i; o.clog.push_back(k.str()); }
